@@ -146,6 +146,22 @@ CHECKS['C07'] = dict(category='proof', design_ref='DESIGN.md §7 C07',
           "operation on its old state with the operation's own operands, no state is used twice or dropped, wells "
           "outside the selection are unchanged in place."))
 
+CHECKS['C04'] = dict(category='proof', design_ref='DESIGN.md §7 C04',
+    technique='contract-based deductive verification: frame (modifies-nothing) and freshness obligations generated by the symbolic executor on every heap write of the real code, on every normal and exceptional path; syntactic frame scan for rendering/observer functions',
+    note=COMMON_NOTE + (" Lemma (paper): if no public operation ever writes a non-fresh object then no object observable "
+                        "before a call differs after it, whatever aliasing exists and whether or not the call raised. "
+                        "Recipe.bake and the trackers are not yet part of this check; rendering functions (pandas) only "
+                        "get the syntactic over-approximation, reported as such; functools caches are assumed not to "
+                        "be mutated (checked syntactically for in-package callers)."),
+    text=("Every heap write (attribute store, dict/array element store, append/add) executed by Container.__init__, "
+          "_add, _transfer, transfer, _transfer_slice, remove, fill_to, get_volume, get_concentration, "
+          "PlateSlicer._transfer/remove/fill_to, Plate.transfer/remove/fill_to, Slicer.apply/set and by every "
+          "declaring / step-adding / stage method of Recipe is checked to target an object allocated in that "
+          "activation (or a deep copy): `frame` on every path including the ones that raise (a later well refusing, a "
+          "capacity overflow after partial work), `fresh` (results are new objects, never the arguments), and "
+          "`frame[arguments]` for objects handed to a recipe. Symbolic contents of arbitrary size; plates of small "
+          "concrete shape."))
+
 NOT_YET = "check not built yet in this round (under construction; not claimed)"
 NOT_APPLICABLE = {}
 
